@@ -71,6 +71,17 @@ Section Prompt.
       apply negb_true_iff. exact H.
   Qed.
 
+  (* the strict certificate (definitions without look-around): a determined state itself does not wait *)
+  Theorem prompt_strict s q st : prompt_strict_ok d g V R = true ->
+    inV V s q = true -> gfind g s = Some st -> determined d R q = true ->
+    partial_mode_test st = false.
+  Proof.
+    intros HP HV Hst Hd. apply inV_elements in HV as [qs [H1 H2]].
+    unfold prompt_strict_ok in HP. rewrite forallb_forall in HP. specialize (HP _ H1). cbn [fst snd] in HP.
+    rewrite forallb_forall in HP. specialize (HP _ H2). unfold prompt_strict_pair in HP.
+    rewrite Hst, Hd in HP. apply negb_true_iff. exact HP.
+  Qed.
+
   (* a state that does not carry the partial-mode test acts (or is the untouched root) at the end of
      the buffer: it never answers "need more input" *)
   Theorem no_test_acts start hops s st off c : gfind g s = Some st -> partial_mode_test st = false ->
